@@ -376,7 +376,8 @@ class WGen:
         if ok():
             t = r.choice([T_TCP, T_TCP, T_TCP2, "RTP/AVP/TCP;unicast;interleaved=0-1;mode=play"])
         else:
-            t = r.choice([T_UDP, T_MC, T_TCP_REC, T_UDP_REC, "RTP/AVP/TCP;unicast"] + GOOD_T + BAD_T +
+            t = r.choice([T_UDP, T_MC, T_TCP_REC, T_UDP_REC, "RTP/AVP/TCP;unicast", "RTP/AVP/TCP;unicast;interleaved=300-301",
+                          "RTP/AVP/TCP;unicast;interleaved=255", "RTP/AVP/TCP;unicast;interleaved=x"] + GOOD_T + BAD_T +
                          [bad_with_tail(r) for _ in range(12)])
         if r.random() < 0.15:
             return wwrap(self.seq(i), SETUP, g.cseq(i), path, ctl=g.good_ctl(sdp), transport=bad_with_tail(r))
@@ -492,6 +493,19 @@ def wsp_sig(c, e, o):
 
 def wsp_streams(ck):
     g = WGen(ck.rng)
+    # the interleaved channel ParseTransport leaves for a track: model parse_channel against the real function
+    rng = ck.rng
+    ctoks = ["unicast", "multicast", "append", "mode=play", "interleaved=0-1", "interleaved=2-3", "interleaved=1", "interleaved=-",
+             "interleaved=a", "interleaved=7-x", "interleaved=255-256", "interleaved=256-257", "interleaved= 5 - 6", "interleaved=\"3-4\"",
+             "interleaved=+4-5", "interleaved=-1-2", "interleaved=", "interleaved=99999999999999999999-1", "Interleaved=9-10",
+             "client_port=5-6", "ttl=3", "", "x=y=z", "interleaved=0-1=2"]
+    ccases = [[c0, t, a] for t in GOOD_T + BAD_T + ["RTP/AVP/TCP;unicast"] for c0 in (-1, 4) for a in (0, 1)]
+    for _ in range(2000 if ck.thorough else 400):
+        spec = rng.choice(["RTP/AVP/TCP", "RTP/AVP/TCP", "RTP/AVP", "RTP/AVP/UDP", " RTP/AVP/TCP ", "RTP/AVP/tcp", "RTP", ""])
+        t = spec + "".join(";" + rng.choice(ctoks) for _ in range(rng.randint(0, 4)))
+        ccases.append([rng.choice([-1, -1, 0, 6]), t, rng.choice([0, 1])])
+    ck.stream("wsp-channels", ccases, "C12_wsp_channel", "C12_wsp_channel", None,
+              nontrivial=lambda c: "interleaved" in c[1], sig=lambda c, e, o: "wsp-parse-channel", sample=2)
     n = 6000 if ck.thorough else 300
     cases = [g.case(16 if ck.thorough else 12) for _ in range(n)]
     ex = wsp_exhaustive(4 if ck.thorough else 3, False) + wsp_exhaustive(4 if ck.thorough else 3, True)
